@@ -296,7 +296,7 @@ class CreditControlRequest(CreditControl):
     access_network_charging_address: bytes
     access_network_charging_identifier_gx: bytes
     an_gw_address: bytes
-    event_trigger: int
+    event_trigger: list[int]
 
     avp_def: AvpGenType = (
         AvpGenDef("session_id", AVP_SESSION_ID, is_required=True),
@@ -363,6 +363,7 @@ class CreditControlRequest(CreditControl):
         setattr(self, "service_parameter_info", [])
         setattr(self, "proxy_info", [])
         setattr(self, "route_record", [])
+        setattr(self, "framed_ipv6_prefix", [])
         setattr(self, "event_trigger", [])
 
         assign_attr_from_defs(self, self._avps)
